@@ -15,14 +15,17 @@ import (
 )
 
 // maxLitBits bounds the integer literals emitted in exactness probes: both Go
-// and scriggo refuse integer constants of more than 512 bits.
+// and scriggo refuse integer constants of more than 512 bits. maxFloatLitBits
+// bounds the integers written as floating-point literals (d.0, 0x..p..): beyond
+// 4096 bits go/constant itself stops being exact.
 const maxLitBits = 500
+const maxFloatLitBits = 3500
 
 // exactCmp returns a boolean Go expression that is true exactly when the real
 // numeric constant named by operand equals v, using only a comparison with a
 // literal that denotes v exactly (integers: decimal; dyadic rationals and
 // big.Float values: hexadecimal floating-point literal) or, for a rational p/q
-// with q not a power of two, the cross-multiplication operand*q == p.
+// with q not a power of two, the cross-multiplication operand*q.0 == p.0.
 func exactCmp(operand string, v constant.Value) (string, bool) {
 	switch v.Kind() {
 	case constant.Int:
@@ -37,24 +40,18 @@ func exactCmp(operand string, v constant.Value) (string, bool) {
 	case constant.Float:
 		switch x := constant.Val(v).(type) {
 		case *big.Rat:
+			if x.Num().BitLen() > maxFloatLitBits || x.Denom().BitLen() > maxFloatLitBits {
+				return "", false
+			}
 			if x.IsInt() {
-				if x.Num().BitLen() > maxLitBits {
-					return "", false
-				}
 				return fmt.Sprintf("%s == (%s.0)", operand, x.Num().String()), true
 			}
 			den := x.Denom()
 			if isPow2(den) {
-				if x.Num().BitLen() > maxLitBits {
-					return "", false
-				}
 				k := den.BitLen() - 1
 				return fmt.Sprintf("%s == (%s)", operand, hexFloat(x.Num(), -k)), true
 			}
-			if x.Num().BitLen() > maxLitBits || den.BitLen() > maxLitBits {
-				return "", false
-			}
-			return fmt.Sprintf("%s * (%s) == (%s)", operand, den.String(), x.Num().String()), true
+			return fmt.Sprintf("%s * (%s.0) == (%s.0)", operand, den.String(), x.Num().String()), true
 		case *big.Float:
 			if x.IsInf() {
 				return "", false
